@@ -169,10 +169,12 @@ func checkAll(m *mon, label string, porcupineTimeout time.Duration) (out []findi
 		if o.Kind == "Close" && o.Ret != 0 && o.Err == "" && closeOp == nil {
 			closeOp = o
 		}
-		if o.Kind == "Close" && o.Wall > 8*time.Second {
+		if o.Kind == "Close" && o.Phase == "conc" && o.Wall > 8*time.Second {
 			// ocache.Close gives up on entries another closer holds after its
-			// internal 10 s closeTimeout; if the machine was so slow that a
-			// Close took this long, "left open" is not decidable here.
+			// internal 10 s closeTimeout. While other operations run, that
+			// closer may be one the harness itself was slow to release, so
+			// "left open" is then not decidable. (A final Close runs alone
+			// with all gates open: whatever it leaves open is genuine.)
 			st.dInconclusive = true
 		}
 	}
